@@ -78,6 +78,11 @@ CHECKS = {
          "Programs covering every construct are printed canonically (one statement per tag) and in 30/60 random re-layouts that vary only what the property calls insignificant; output, or the error text modulo 'line N:', must be identical. No reference model is involved: the relation is between two runs of the real engine.",
          "Trusted: the printer inserts mandatory whitespace exactly where the property's '-'/'.' exception and word tokens require it and never splits '} else {'.",
          "DESIGN.md §5 C18"),
+ "C17": ("exploration",
+         "runtime second-route monitor: composed rendering (partial/layout/contentFor/contentOf/block helper) by the real engine vs. the same body rendered inline by the real engine in the equivalent scope, assembled by the harness; recorded side-effect traces for exactly-once",
+         "Random bodies and data are rendered through 10 composition kinds under three content types and three name extensions; the result must equal the harness-assembled expectation built from a separate plush.Render of the body in scope.New()+data (JS-escaped and wrapped in the layout as the property states), contentFor must emit nothing where defined, undefined contentOf without default must fail, and the recording helpers inside the body must fire exactly as often as inline.",
+         "Trusted: html/template's JSEscapeString as the meaning of JS escaping; the harness' assembly rules transcribed from the property. Detects disagreement between two routes, not a common error of both.",
+         "DESIGN.md §5 C17"),
 }
 NOT_YET = "check not built yet in this round (see DESIGN.md §5 for the planned monitor)"
 
